@@ -96,9 +96,14 @@ func detBundle(rng *rand.Rand) *jBundle {
 	// enum with info on several options, several imports, several dependencies
 	f := b.Files[0]
 	info := map[string]map[string]string{}
-	opts := []string{"ONE", "TWO", "THREE"}
-	for _, o := range opts {
-		info[o] = map[string]string{"alpha": "a" + o, "beta": "b" + o, "gamma": "c" + o, "delta": "d" + o}
+	opts := []string{"ONE", "TWO", "THREE", "FOUR", "FIVE", "SIX"}
+	keys := []string{"alpha", "beta", "gamma", "delta", "epsilon", "zeta"}
+	for i, o := range opts {
+		// 1, 2, 3 … entries: every map size from one up is printed
+		info[o] = map[string]string{}
+		for _, k := range keys[:i+1] {
+			info[o][k] = k[:1] + o
+		}
 	}
 	f.Elems = append(f.Elems, &jElem{Decl: &jDecl{Kind: kEnum, Name: "InfoEnum", Options: opts, OptInfo: info}})
 	f.Elems = append(f.Elems, objDecl("ManyTypes", fld("when", tScalar(kTimestamp)), fld("day", tScalar(kDate)), fld("amount", tScalar(kDecimal)), fld("whatever", tScalar("any")),
